@@ -99,9 +99,17 @@ def run(ctx):
         for p in enumerate_paths(b):
             if p.end != "return":
                 continue
-            inner_calls = [cname(t["func"]) for pos, blk, t in p.calls() if t["func"]["path"] in ("std::io::Read::read", "std::io::Write::write", "std::io::Write::flush")]
+            inner = [(pos, t) for pos, blk, t in p.calls() if t["func"]["path"] in ("std::io::Read::read", "std::io::Write::write", "std::io::Write::flush")]
+            inner_calls = [cname(t["func"]) for pos, t in inner]
             n += 1
             ok = len(inner_calls) == 1 and [t["func"]["path"] for pos, blk, t in p.calls() if t["func"]["path"].startswith("std::io::")][-1:] == ["%s::%s" % (tr, meth)]
+            if ok:
+                # the receiver is the variant's payload itself (the plain socket / the whole TLS stream), not a part of it:
+                # writing into the TLS session's buffer instead of the stream, or reading the raw socket under TLS, is no delegation
+                recv = T.peel(p.arg(inner[0][0], 0))
+                ok = isinstance(recv, tuple) and recv[0] == "field" and isinstance(recv[1], tuple) and recv[1][0] == "variant" and recv[1][2] in ("Plain", "Tls")
+                if not ok:
+                    inner_calls = ["%s on %s" % (inner_calls[0][-40:], term_str(recv)[-80:])]
             ctx.ob("C18.variant-delegation", ok, "SwitchableConn::%s forwards to %s on one variant (need %s::%s)" % (meth, inner_calls, tr, meth), fn=b.path, construct="arm",
                    where=b.where(p.blocks[-1]), sample={"rule": "variant-delegation", "method": meth, "inner": inner_calls} if n <= 2 else None)
     ctx.floor("C18.variant-delegation", "SwitchableConn delegation arms", n, 6)
@@ -141,6 +149,7 @@ def run(ctx):
     fi = roles.f_init
     ctx.fn(fi)
     nssl = 0
+    seen_ssl_tests = set()
     for p in enumerate_paths(fi, max_visits=1, limit=100000):
         if p.end != "return":
             continue
@@ -151,6 +160,15 @@ def run(ctx):
                 v = p.origin_op(t["discr"], i)
                 if T.is_call(v, r"CapabilityFlags>::contains$") and v[2][1][0] == "const" and v[2][1][1][0] == "bits" and v[2][1][1][1] == 0x800:
                     ssl = p.blocks[i + 1] != t["tgts"][t["vals"].index("0")]
+                    # what is tested must be the capability word the client sent, unmasked: a test of a derived value
+                    # (e.g. intersected with what the server advertised) lets an SSL request through as a plain login
+                    recv = T.peel(v[2][0])
+                    okr = T.is_field(recv, "capabilities") and T.contains(recv, lambda x: T.is_call(x, r"^commands::client_handshake$")) and \
+                        not T.contains(recv, lambda x: isinstance(x, tuple) and x[0] == "call" and re.search(r"BitAnd|BitOr|BitXor|Sub|Not|intersection|difference|from_bits", x[1]))
+                    if (blk, "recv") not in seen_ssl_tests:
+                        seen_ssl_tests.add((blk, "recv"))
+                        ctx.ob("C18.init-order", okr, "CLIENT_SSL is tested on %s, not on the capability flags the client sent" % term_str(recv)[-120:], fn=fi.path,
+                               construct="ssl-test-operand", where=fi.where(blk))
         if not ssl:
             continue
         nssl += 1
